@@ -253,9 +253,14 @@ func (e *exec) maybeFault(prios []uint, dividend uint, dist map[uint]uint, eligi
 		e.tr.FaultCall = e.tr.DivCalls
 		e.tr.FaultDelivs = len(e.tr.Deliveries)
 		e.tr.FaultInFlight = len(e.live)
-		e.tr.FaultAtCreate = !e.created.Load()
+		// v2: the first call is the strategic division made by New itself
+		e.tr.FaultAtCreate = e.s.Ver == 2 && e.tr.DivCalls == 1
 		if e.created.Load() && e.ad.outLen != nil {
 			e.tr.FaultOutLen = e.ad.outLen()
+		} else if !e.tr.FaultAtCreate {
+			// the discipline's goroutine got here before the constructor returned to the
+			// harness: the output channel is not known yet
+			e.tr.FaultEarly = true
 		}
 		e.mu.Unlock()
 	}
